@@ -78,6 +78,7 @@ type Shared struct {
 	params    map[string]int
 	chooseMax map[string]int
 	unknownAt []string
+	forkSites map[string]int
 	deadline  time.Time
 	timedOut  bool
 
@@ -87,6 +88,9 @@ type Shared struct {
 	progress                    bool
 	lastProgress                time.Time
 }
+
+// brStats (GOSYM_BRSTATS=1): count, per branch site / choice tag, the decisions with more than one feasible side.
+var brStats = os.Getenv("GOSYM_BRSTATS") != ""
 
 func NewShared(nworkers int) *Shared {
 	s := &Shared{stats: map[string]int{}, reach: map[string]bool{}, findKeys: map[string]int{}, maxPaths: 1 << 40,
@@ -159,6 +163,7 @@ type Explorer struct {
 	pcHash   uint64
 	brSite   string
 	fitCache map[[2]uint64]bool
+	assumeCache map[[2]uint64]string
 }
 
 func NewExplorer(ts *TermStore, sol *Solver, sh *Shared) *Explorer {
@@ -210,6 +215,23 @@ func (e *Explorer) implied(c *Term) bool {
 	}
 	r := e.sol.CheckWith(e.ts.Op("not", 0, c)) == "unsat"
 	e.fitCache[key] = r
+	return r
+}
+
+// assumeCheck is checkWith for verifAssume, cached per (path condition, term): the stateless search re-executes the
+// common prefix of sibling paths, and every re-execution meets the same assumptions under the same path condition.
+func (e *Explorer) assumeCheck(c *Term) string {
+	key := [2]uint64{e.pcHash, uint64(c.id)}
+	if r, ok := e.assumeCache[key]; ok {
+		return r
+	}
+	r := e.checkWith(c)
+	if r != "unknown" {
+		if e.assumeCache == nil {
+			e.assumeCache = map[[2]uint64]string{}
+		}
+		e.assumeCache[key] = r
+	}
 	return r
 }
 
@@ -293,6 +315,12 @@ func (e *Explorer) take(kind string, n int, cons func(i int) *Term) int {
 	}
 	e.sh.mu.Lock()
 	e.sh.decisions++
+	if brStats && len(feas) > 1 {
+		if e.sh.forkSites == nil {
+			e.sh.forkSites = map[string]int{}
+		}
+		e.sh.forkSites[kind]++
+	}
 	e.sh.mu.Unlock()
 	// work sharing: hand the siblings to other workers while the queue is short
 	if len(feas) > 1 && len(e.vec) < 48 && e.sh.nworkers > 1 && e.sh.hungry() {
